@@ -6,10 +6,11 @@ import (
 )
 
 // extractProxy: proxy.go
-//   free_blocker_waits_for_accept_loop — freeBlocker calls acceptTomb.Wait() before proxy.tomb.Done()
-//   conn_key_is_dest                   — connections.list[name+X] holds the destination socket of link name+X
-//   registers_before_links             — both sockets are put in the table before the first StartLink
-//   stop_waits_then_closes             — stop(): tomb.Kill, tomb.Wait, then closes every registered connection
+//
+//	free_blocker_waits_for_accept_loop — freeBlocker calls acceptTomb.Wait() before proxy.tomb.Done()
+//	conn_key_is_dest                   — connections.list[name+X] holds the destination socket of link name+X
+//	registers_before_links             — both sockets are put in the table before the first StartLink
+//	stop_waits_then_closes             — stop(): tomb.Kill, tomb.Wait, then closes every registered connection
 func extractProxy(repo string, o *out) {
 	p, err := loadPkg(repo)
 	if err != nil {
